@@ -80,6 +80,13 @@ def scenarios(rng, quick):
         for inp in ["valid", "syntax", "nofile"]:
             sc.append(dict(input=inp, out="dir", pkg="missing", name="", flags=fl))
     sc.append(dict(input="valid", out="dir", pkg="missing", name="-", flags=["-name"]))      # -name without a value
+    # arguments after the input file: flags written behind it (the flag set stops at the file, so they are not flags any more),
+    # a second file - honoured or refused, never dropped in silence
+    for after in (["-out", "ELSEWHERE"], ["-name", "other"], ["-out", "ELSEWHERE", "-name", "other"], ["-debug"], ["SECOND"], ["--", "-x"], ["-out"]):
+        for inp in ["valid", "syntax", "missing"]:
+            for out in ["cwd", "dir"]:
+                for name in ["", "parser"]:
+                    sc.append(dict(input=inp, out=out, pkg="missing", name=name, flags=[], after=after))
     return sc
 
 
@@ -231,6 +238,14 @@ def run(ctx):
                     os.symlink(os.path.join(box, "nowhere"), pp); pkgstate = "symlink"
             if fileArg:
                 args += [fileArg]
+            rest = []
+            for x in s.get("after", []):
+                if x == "ELSEWHERE":
+                    os.makedirs(os.path.join(box, "elsewhere"), exist_ok=True); x = os.path.join(box, "elsewhere")
+                elif x == "SECOND":
+                    x = os.path.join(box, "second.ebnf"); open(x, "w").write(VALID)
+                rest.append(x)
+            args += rest
             perr = int("-nosuch" in args)
             usage = int("-h" in args and not perr)
             if name == "-":
@@ -246,7 +261,8 @@ def run(ctx):
             stats["preexisting_paths_checked"] += len(before)
             actual.append(dict(scenario=s, args=args, exit=p.returncode, created=created, changed=changed, success=int("Successful!" in outtxt),
                                trace=int("goroutine " in outtxt and "[running]" in outtxt), output=outtxt[-600:], idvalid=idvalid, chosen_name=eff, outrel=os.path.relpath(outdir, box), files={c: after[c] for c in created}))
-            model_lines.append("perr=%d usage=%d help=%d version=%d out=%s name=%s file=%d input=%s parse=%d gname=%s lexer=%d parser=%d idvalid=%d outstate=%s pkgstate=%s" % (
+            model_lines.append(("args=%s " % ",".join(hx(x) for x in [fileArg] + rest) if rest and fileArg else "") +
+                               "perr=%d usage=%d help=%d version=%d out=%s name=%s file=%d input=%s parse=%d gname=%s lexer=%d parser=%d idvalid=%d outstate=%s pkgstate=%s" % (
                 perr, usage, int("-help" in args), int("-version" in args), hx("O"), hx(name if name and name != "-" else "") if name != "-" else hx(eff), have_file, inp_state,
                 spec_flags["parse"], hx(gname), spec_flags["lexer"], spec_flags["parser"], idvalid if idvalid is not None else 1, outstate, pkgstate))
             shutil.rmtree(box)
@@ -283,6 +299,13 @@ def run(ctx):
             ctx.add_violation("success was announced although the package was not fully written", dict(a, model=m))
         if a.get("idvalid") == 0 and not informational and "-nosuch" not in a["args"] and (a["created"] or a["success"] or a["exit"] == 0):
             ctx.add_violation("a name that is not a usable Go package identifier was not rejected before anything was created", dict(a, model=m))
+        after = s.get("after", [])
+        if after and (a["success"] or a["exit"] == 0):
+            # the run claims success: then every -out / -name of the command line must have been honoured
+            want_out = "elsewhere" if "ELSEWHERE" in after else a["outrel"]
+            want_name = "other" if "-name" in after and after.index("-name") + 1 < len(after) else a["chosen_name"]
+            if not all(("%s/%s/%s" % (want_out, want_name, fn)) in a["created"] for fn in FILES) or "SECOND" in after:
+                ctx.add_violation("success although part of the command line was ignored (%s after the input file)" % " ".join(after), dict(a, model=m))
         if a["exit"] == 0 and not a["success"] and not informational:
             ctx.add_violation("exit status 0 without success", dict(a, model=m))
         if a["exit"] != 0 and not a["output"].strip():
@@ -294,7 +317,7 @@ def run(ctx):
                 ctx.add_broken("correspondence: the CLI model and the binary disagree on %s" % json.dumps(s),
                                "args=%s\nbinary: exit=%s success=%s created=%s\nmodel : %s\noutput: %s" % (a["args"], a["exit"], a["success"], got_created, m, a["output"][-300:]))
     cov = {"evaluations": len(actual), "distinct_nontrivial": len(distinct),
-           "rule": "the real binary (built from the working tree) run in a fresh sandbox directory per scenario: flags (-debug -verbose -help -version -h, unknown flag, -name with/without value, -out) x input classes (valid; lexical, syntax, semantic error; token conflict; invalid pattern; LALR conflict; empty; missing file; directory; no file argument) x output location (cwd default, existing dir, missing, a file) x pre-existing <out>/<name> (missing, directory, directory holding lexer.go/types.go, file, symlink to a directory, dangling symlink) x names (usable and unusable identifiers); before/after snapshots (kind, mode, size, SHA-256 of every path), exit status, final message; plus write faults: two valid specifications run under RLIMIT_FSIZE = L with SIGXFSZ ignored for L swept around every file size, every 4096-byte boundary and 0/1, each compared with a reference run byte for byte and with the CLI model under the corresponding `half` faults; non-trivial = distinct scenario",
+           "rule": "the real binary (built from the working tree) run in a fresh sandbox directory per scenario: flags (-debug -verbose -help -version -h, unknown flag, -name with/without value, -out; flags and a second file written after the input file) x input classes (valid; lexical, syntax, semantic error; token conflict; invalid pattern; LALR conflict; empty; missing file; directory; no file argument) x output location (cwd default, existing dir, missing, a file) x pre-existing <out>/<name> (missing, directory, directory holding lexer.go/types.go, file, symlink to a directory, dangling symlink) x names (usable and unusable identifiers); before/after snapshots (kind, mode, size, SHA-256 of every path), exit status, final message; plus write faults: two valid specifications run under RLIMIT_FSIZE = L with SIGXFSZ ignored for L swept around every file size, every 4096-byte boundary and 0/1, each compared with a reference run byte for byte and with the CLI model under the corresponding `half` faults; non-trivial = distinct scenario",
            "samples": [actual[0]["args"], actual[-1]["args"]], "outcomes": stats, "correspondence_disagreements": ncorr,
            "trusted_base": TRUSTED_BASE + ["Linux semantics of mkdir(2) and open(2) with O_CREAT|O_EXCL (fail with EEXIST on any existing path, including dangling symbolic links)",
                                          "translator fact fsops: the only calls in the tool's non-test code that can change the file system (C16_only_modelled_calls)",
